@@ -296,7 +296,7 @@ def run(ctx):
     samples = []
     work = tempfile.mkdtemp(prefix="c08_")
     try:
-        n_graphs, n_tie = (120, 300) if ctx.quick() else (6000, 6000)
+        n_graphs, n_tie = (120, 300) if ctx.quick() else (20000, 20000)
         for _ in range(n_graphs):
             case = gen_case(ctx.rng)
             stats["graphs"] += 1
